@@ -170,7 +170,11 @@ func (v *VM) SetIsHardforkEnabled(f func(config.Hardfork) bool) {
 func (v *VM) SetGasLimit(datoshi int64) {
 	v.gasLimit = datoshi
 	if datoshi > 0 {
-		v.gasLimit *= ExecFeeFactorMultiplier
+		// The limit is kept in picoGAS, it must not wrap around (a negative
+		// value means no limit at all): limits beyond what int64 can hold in
+		// picoGAS (~9.2M GAS) are as good as that maximum.
+		const maxDatoshi = math.MaxInt64 / ExecFeeFactorMultiplier
+		v.gasLimit = min(datoshi, maxDatoshi) * ExecFeeFactorMultiplier
 	}
 }
 
